@@ -8,6 +8,8 @@ pub struct Rng {
     /// enumeration of short choice sequences); afterwards the PRNG takes over
     tape: Vec<u32>,
     tape_pos: usize,
+    /// every value returned by `below` (so a case can be replayed from an explicit tape)
+    record: Vec<u32>,
 }
 
 fn splitmix(x: &mut u64) -> u64 {
@@ -25,7 +27,7 @@ impl Rng {
         for v in s.iter_mut() {
             *v = splitmix(&mut x);
         }
-        Rng { s, tape: vec![], tape_pos: 0 }
+        Rng { s, tape: vec![], tape_pos: 0, record: vec![] }
     }
     pub fn for_case(seed: u64, prop: &str, idx: u64) -> Rng {
         let mut h: u64 = 0xcbf29ce484222325;
@@ -50,6 +52,9 @@ impl Rng {
         (self.next_u64() >> 32) as u32
     }
     /// uniform in 0..n (n>0)
+    pub fn recorded_choices(&self) -> Vec<u32> {
+        self.record.clone()
+    }
     pub fn with_tape(mut self, tape: Vec<u32>) -> Rng {
         self.tape = tape;
         self.tape_pos = 0;
@@ -62,19 +67,29 @@ impl Rng {
         if self.tape_pos < self.tape.len() {
             let v = self.tape[self.tape_pos] as usize % n;
             self.tape_pos += 1;
+            if self.record.len() < 4096 {
+                self.record.push(v as u32);
+            }
             return v;
         }
-        (self.next_u64() % n as u64) as usize
+        let v = (self.next_u64() % n as u64) as usize;
+        if self.record.len() < 4096 {
+            self.record.push(v as u32);
+        }
+        v
     }
     /// inclusive range
     pub fn range(&mut self, lo: usize, hi: usize) -> usize {
         lo + self.below(hi - lo + 1)
     }
     pub fn chance(&mut self, num: u32, den: u32) -> bool {
-        (self.next_u32() % den) < num
+        (self.below(den as usize) as u32) < num
     }
     pub fn bool(&mut self) -> bool {
-        self.next_u64() & 1 == 1
+        self.below(2) == 1
+    }
+    pub fn clear_record(&mut self) {
+        self.record.clear();
     }
     pub fn pick<'a, T>(&mut self, xs: &'a [T]) -> &'a T {
         &xs[self.below(xs.len())]
